@@ -83,6 +83,31 @@ def no_alloc(ctx, rep):
     rep.sample({"rule": "R08.1", "extern_crates": ctx.program("default").crates["embedded_graphics"]["extern_crates"]})
 
 
+def _fn_item_operands(body):
+    """paths of the function items that occur as constant operands (call arguments, assigned values)"""
+    out = []
+
+    def scan(o):
+        c = o.get("const") if isinstance(o, dict) else None
+        t = c.get("ty") if isinstance(c, dict) else None
+        if isinstance(t, dict) and "fndef" in t:
+            out.append(t["fndef"])
+    for b in body["blocks"]:
+        for s_ in b["s"]:
+            if s_["k"] == "assign":
+                rv = s_["rv"]
+                for k in ("a", "b"):
+                    if k in rv:
+                        scan(rv[k])
+                for o in rv.get("ops", []) or []:
+                    scan(o)
+        t = b["t"]
+        if t and t["k"] == "call":
+            for a in t["args"]:
+                scan(a)
+    return out
+
+
 def audit(prog, rep):
     """Sites are keyed by (root function, kind): closures count for the function that creates them, and a helper
     that does not exist in the reference tree counts for every reference function that (transitively) calls it."""
@@ -109,6 +134,11 @@ def audit(prog, rep):
                 for g in prog.by_path.get(p, []):
                     if g.body and prog.is_new(g):
                         callers.setdefault(g.root_fn().id, set()).add(f.root_fn().id)
+        # a helper handed on as a function item (`.map(helper::<O>)`) is used by the function that mentions it
+        for o in _fn_item_operands(f.body):
+            for g in prog.by_path.get(o, []):
+                if g.body and prog.is_new(g):
+                    callers.setdefault(g.root_fn().id, set()).add(f.root_fn().id)
 
     def owners(fid, seen=()):
         f = prog.fns[fid]
